@@ -82,20 +82,14 @@ Proof.
 Qed.
 
 Theorem threshold_relative_spec tp U :
-  3 <= length U -> threshold_relative tp U = Ok (split_by (cut_rel tp U) U).
+  threshold_relative tp U = Ok (split_by (cut_rel tp U) U).
 Proof.
-  intros H. destruct U as [|u0 [|u1 [|u2 rest]]]; simpl in H; try lia.
+  destruct U as [|u0 [|u1 [|u2 rest]]]; try reflexivity.
   unfold threshold_relative. f_equal.
   rewrite (rel_loop_spec tp rest [] u0 u1 u2 [u0] []).
   cbn [rev app length]. unfold split_by. cbn [split_from].
   assert (Hc : cut_rel tp (u0 :: u1 :: u2 :: rest) 0 = false) by reflexivity.
   rewrite Hc. reflexivity.
-Qed.
-
-Theorem threshold_relative_short tp U :
-  length U < 3 -> threshold_relative tp U = Raise IndexError.
-Proof.
-  intros H. destruct U as [|u0 [|u1 [|u2 rest]]]; simpl in H; try lia; reflexivity.
 Qed.
 
 (* ---------- absolute scan = positional rule ---------- *)
@@ -127,9 +121,9 @@ Proof.
 Qed.
 
 Theorem threshold_absolute_spec below U :
-  1 <= length U -> threshold_absolute below U = Ok (split_by (cut_abs below U) U).
+  threshold_absolute below U = Ok (split_by (cut_abs below U) U).
 Proof.
-  intros H. destruct U as [|u0 rest]; simpl in H; try lia.
+  destruct U as [|u0 rest]; [reflexivity|].
   unfold threshold_absolute. f_equal.
   rewrite (abs_loop_spec below rest [] u0 [] []). reflexivity.
 Qed.
@@ -300,34 +294,36 @@ Definition type_values (d : dep) (T : list str) : list Q := map snd (train d T).
 
 Theorem cwords_relative_spec text train_text d :
   let U := units_of text in let T := train_units_of text train_text in
-  3 <= length U ->
   cwords_of text train_text Relative d = Ok (split_by (cut_rel (dep_value d T) U) U).
 Proof.
-  intros U T H. unfold cwords_of.
+  intros U T. unfold cwords_of.
   change (match train_text with None => units_of text | Some trn => units_of trn end) with T.
   fold U.
-  rewrite <- (threshold_relative_spec (dep_value d T) U H).
+  rewrite <- (threshold_relative_spec (dep_value d T) U).
   unfold threshold_relative. destruct U as [|u0 [|u1 [|u2 rest]]]; try reflexivity.
   f_equal. apply rel_loop_ext. intros a b. apply tp_counts_spec.
 Qed.
 
 Theorem cwords_absolute_spec text train_text d :
   let U := units_of text in let T := train_units_of text train_text in
-  1 <= length U ->
   cwords_of text train_text Absolute d
   = Ok (split_by (cut_abs (fun a b => le_mean d (type_values d T) (dep_value d T a b)) U) U).
 Proof.
-  intros U T H. unfold cwords_of.
+  intros U T. unfold cwords_of.
   change (match train_text with None => units_of text | Some trn => units_of trn end) with T.
   fold U.
-  rewrite <- (threshold_absolute_spec _ U H).
+  rewrite <- (threshold_absolute_spec _ U).
   unfold threshold_absolute. destruct U as [|u0 rest]; try reflexivity.
   f_equal. apply abs_loop_ext. intros a b. unfold type_values. now rewrite tp_counts_spec.
 Qed.
 
 Theorem segment_eq_render text train_text t d :
+  text <> [] ->
   segment text train_text t d = do cw <- cwords_of text train_text t d; Ok (render cw).
-Proof. unfold segment, cwords_of. destruct t; reflexivity. Qed.
+Proof. intros H. unfold segment, cwords_of. destruct text; [congruence|]. destruct t; reflexivity. Qed.
+
+Theorem segment_empty train_text t d : segment [] train_text t d = Ok [].
+Proof. reflexivity. Qed.
 
 (* le_mean is the comparison with the arithmetic mean (ftp, btp) *)
 Lemma le_mean_arith d vals v : d <> Mi -> vals <> [] ->
